@@ -1,5 +1,16 @@
-_OPTS = ["default", "full", "minimal", "fastp", "fastcof", "stable", "mini", "lowfull"]
+_OPTS = ["default", "full", "minimal", "fastp", "fastcof", "stable", "mini", "lowfull", "data"]
 _SRC = ["c15_main.cpp"] + ["c15_st_%s.cpp" % n for n in _OPTS]
+# cross-option copy constructor (pairs of option sets), flag complexes grown by insert_edge_as_flag / expansion on the option sets with
+# link_nodes_by_label, more vertices than the largest 16 bit vertex handle
+_CROSS = ["st_cross_full_mini", "st_cross_mini_full", "st_cross_default_stable", "st_cross_fastcof_minimal", "st_cross_fastp_lowfull", "st_cross_lowfull_lowfull"]
+_FLAG = ["st_flag_full", "st_flag_fastcof", "st_flag_lowfull"]
+_MANY = ["st_many_vertices_mini", "st_many_vertices_lowfull"]
+_XSRC = ["c15_main.cpp", "c15_cross_a.cpp", "c15_cross_b.cpp", "c15_cross_c.cpp"]
+def _st_configs(q, t, qx, tx, qm, tm):
+    d = {("st_" + n): {"quick": q, "thorough": t} for n in _OPTS}
+    d.update({n: {"quick": qx, "thorough": tx} for n in _FLAG})
+    d.update({n: {"quick": qm, "thorough": tm} for n in _MANY})
+    return d
 def _extra(ctx):
     """C15's last sentence ('in every other check of this suite no operation touches memory outside live objects or executes
     undefined behaviour'): summarise, from the evidence files the other checks wrote, how many cases each of them executed under
@@ -23,43 +34,78 @@ def _extra(ctx):
 _MX = ["mx_base_z2_ilist_rows", "mx_base_z5_set_setrows", "mx_base_z2_iset_compression", "mx_base_z5_heap",
        "mx_ru_z2_iset_vine_removable", "mx_ru_z5_list", "mx_ru_z2_vector_map_rep", "mx_boundary_z5_uset",
        "mx_chain_z2_ilist_map_vine", "mx_chain_z5_set_rep", "mx_chain_z2_nvector_setrows_removable",
-       "mx_chain_z2_iset_id_removable", "mx_chain_z5_list_pos_removable", "mx_boundary_z2_set_id_removable", "mx_chain_z5_vector_id_map_rep"]
+       "mx_chain_z2_iset_id_removable", "mx_chain_z5_list_pos_removable", "mx_boundary_z2_set_id_removable", "mx_chain_z5_vector_id_map_rep",
+       "mx_base_z2_set_rows_removable", "mx_chain_z2_ilist_rows_removable", "mx_base_z5_list_rows_compression"]
+_MXSRC = ["c15_main.cpp", "c15_mx_a.cpp", "c15_mx_b.cpp", "c15_mx_c.cpp", "c15_mx_d.cpp", "c15_mx_e.cpp"]
 SPEC = {
     "property": "C15",
-    "rule": "Simplex_tree: a source tree A is built by a random model-generated history (2-30 ops incl. removals/prunings, so cached dimension bounds may be stale), "
-            "a target B is empty / small / large; one scenario of {copy ctor, copy assign, self copy assign, move ctor, move assign, std::swap, "
-            "self move assign, binary serialise/deserialise incl. every length perturbation -16..+16 and random truncations on exact-size heap buffers, "
-            "text operator<< / operator>>} is applied; the result and the source are compared with the model through every read interface, "
-            "then both objects are driven through different random histories with the OTHER object fully re-checked after every step, and one "
-            "of them is destroyed before the other continues. All 8 option sets, under ASan+UBSan. Matrix: 15 instantiations (base with intrusive/set rows, compression, heap; RU with vine/rep/map container; boundary; chain with vine/rep/removable columns): a matrix built on a random filtered complex prefix is copied / assigned / self-assigned / moved / swapped, the full dump (all columns of R and U, barcode, rows) is compared, both objects are then driven differently (remaining cells, remove_last) with the other re-dumped, barcodes are compared with an independent reduction, one object is destroyed before the other continues; a moved-from matrix must report 0 columns and be usable again after assignment. non-trivial = distinct (history, scenario) "
-            "with source dimension >= 1 or a move/swap/serialisation scenario",
-    "assumptions": ["a moved-from Matrix is made usable again by assigning a matrix to it (it owns no column settings; direct reuse is not offered by the library)", "Matrix part: 15 pointer-rich instantiations (incl. the position / identifier indexing overlays) (intrusive rows/columns, pools, Z_p operators pointer, compression, RU+vine, chain+map container, removable columns)", "oracle::ComplexModel is the trusted model", "stream precision set to max_digits10 by the caller (documented responsibility)",
+    "rule": "Simplex_tree: a source tree A is built by a random model-generated history (2-30 ops incl. removals/prunings, so cached dimension bounds may be stale; "
+            "one value draw in 17 is +infinity), a target B is empty / small / large; keys (store_key) and Simplex_data (option set 'data': std::vector<int>) are attached to every "
+            "simplex of A and B; one scenario of {copy ctor, copy assign, self copy assign, move ctor, move assign, std::swap, self move assign, self swap, "
+            "binary serialise/deserialise incl. every length perturbation -16..+16 and random truncations on exact-size heap buffers, "
+            "text operator<< / operator>>} is applied; the result and the source are compared with the model through every read interface (and with the attached keys / data), "
+            "then both objects are driven through different random histories with the OTHER object (its content and its freshly re-attached keys / data) fully re-checked after every step, and one "
+            "of them is destroyed before the other continues. 9 option sets, under ASan+UBSan. Cross-option copy constructor Simplex_tree(const Simplex_tree<Other>&, translate): six pairs "
+            "(full->mini, mini->full, default->stable, fastcof->minimal, fastp->lowfull, lowfull->lowfull through the template), same comparison, keys carried over when both store keys, then the "
+            "two-way divergence. Flag complexes (option sets with link_nodes_by_label: full, fastcof, lowfull): source and target are grown by insert_edge_as_flag (dim_max 1..4 or -1; expansion(d) "
+            "from a 1-skeleton), one of {copy ctor, copy assign, move ctor, move assign, swap, deserialise, text re-read, self assign} is applied, then both objects keep growing through the same "
+            "interface, each compared with the clique complex of its graph after every step (oracle/flag.h) while the other is re-checked. 16 bit Vertex_handle (mini, lowfull): copy and "
+            "serialisation round trip of a tree with 32768..40767 vertices. "
+            "Matrix: 18 instantiations (base with intrusive/set rows, removable rows, compression with and without row access, heap; RU with vine/rep/map container; boundary; chain with "
+            "vine/rep/removable columns/removable rows; position / identifier overlays): source and target are each built by one of the three documented routes (default constructor + "
+            "insertions, reserving constructor Matrix(n[,p]) + insertions, batch constructor Matrix(columns[,p])), the target over Z7 half of the time when the source is over Z5; the source is a "
+            "prefix of a random filtered complex, for removable columns sometimes after surplus insertions undone by remove_last, for base matrices after 0-4 random column operations "
+            "(zero_entry, zero_column, add_to, multiply_target_and_add_to: zero columns, empty rows, merged compression classes); it is copied / assigned / self-assigned / moved / self-move-assigned / "
+            "swapped / self-swapped, the full dump (all columns of R and U, barcode, every row that exists; with removable rows every row index, absent rows told from empty ones) is compared, "
+            "both objects are then driven differently (remaining cells, remove_last, for base matrices the same random column operations on copy and source) with the other re-dumped, barcodes are "
+            "compared with an independent reduction, one object is destroyed before the other continues; a moved-from matrix must report 0 columns and be usable again after assignment. "
+            "non-trivial = distinct (history, scenario) with source dimension >= 1 or a move/swap/serialisation scenario",
+    "assumptions": ["a moved-from Matrix is made usable again by assigning a matrix to it (it owns no column settings; direct reuse is not offered by the library)",
+                    "Matrix part: 18 pointer-rich instantiations (incl. the position / identifier indexing overlays); vine swaps and the column operations of RU / chain matrices on copies are left to C06 / C09 "
+                    "(probed clean on copies by the audit); chain matrices with vine updates are not rebuilt after remove_last (they do not reuse the identifier of a removed cell: "
+                    "insert_boundary without explicit identifier after remove_last throws out_of_range from the position map, independent of any copy)",
+                    "oracle::ComplexModel is the trusted model; oracle::flag_complex for the flag scenarios", "stream precision set to max_digits10 by the caller (documented responsibility)",
+                    "infinite values: +infinity only (the largest grid value stands for it; -infinity / NaN are exercised by C01, not here); flag scenarios insert edges in filtration order with finite values",
+                    "keys and Simplex_data are not part of the serialised form (documented), so they are compared for copies / moves / swaps only; the cross-option constructor ignores Simplex_data (documented)",
                     "TSan thread workloads live in the C03 (Simplex_tree) and C10 (field tables) checks"],
     "units": [
         {"name": "st", "src": _SRC, "variant": "asan",
-         "configs": {("st_" + n): {"quick": 700, "thorough": 40000} for n in _OPTS}, "chunk": 25},
-        {"name": "mx", "src": ["c15_main.cpp", "c15_mx_a.cpp", "c15_mx_b.cpp", "c15_mx_c.cpp", "c15_mx_d.cpp"], "variant": "asan",
+         "configs": _st_configs(700, 40000, 300, 20000, 3, 40), "chunk": 25},
+        {"name": "st_cross", "src": _XSRC, "variant": "asan",
+         "configs": {n: {"quick": 250, "thorough": 15000} for n in _CROSS}, "chunk": 25},
+        {"name": "mx", "src": _MXSRC, "variant": "asan",
          "configs": {n: {"quick": 500, "thorough": 30000} for n in _MX}, "chunk": 25},
-        {"name": "mx_gcc", "src": ["c15_main.cpp", "c15_mx_a.cpp", "c15_mx_b.cpp", "c15_mx_c.cpp", "c15_mx_d.cpp"], "variant": "gasan", "tiers": ["thorough"],
+        {"name": "mx_gcc", "src": _MXSRC, "variant": "gasan", "tiers": ["thorough"],
          "configs": {n: {"thorough": 3000} for n in _MX}, "chunk": 25},
         {"name": "st_gcc", "src": _SRC, "variant": "gasan",
          "configs": {("st_" + n): {"quick": 100, "thorough": 5000} for n in _OPTS}, "chunk": 25},
         # valgrind memcheck: uses of uninitialised values in copied / moved-from / deserialised objects (invisible to ASan/UBSan)
         {"name": "st_memcheck", "src": _SRC, "variant": "memcheck",
-         "configs": {("st_" + n): {"quick": 40, "thorough": 1200} for n in _OPTS}, "chunk": 10},
-        {"name": "mx_memcheck", "src": ["c15_main.cpp", "c15_mx_a.cpp", "c15_mx_b.cpp", "c15_mx_c.cpp", "c15_mx_d.cpp"], "variant": "memcheck",
+         "configs": {("st_" + n): {"quick": 40, "thorough": 1200} for n in _OPTS if n != "data"}, "chunk": 10},
+        {"name": "mx_memcheck", "src": _MXSRC, "variant": "memcheck",
          "configs": {n: {"quick": 24, "thorough": 800} for n in _MX}, "chunk": 8},
     ],
     "extra": _extra,
     "floors": {"quick": {"scenario.copy_ctor": 200, "scenario.move_assign": 200, "scenario.self_copy_assign": 100, "scenario.serialize": 200,
                          "state.source_upper_bound_stale": 100, "cmp.deserialize_truncated": 1000, "steps.divergent": 5000,
-                         "_distinct_nontrivial": 1000, "cmp.matrix_independence": 1500, "cmp.matrix_moved_from_reuse": 500, "op.matrix_remove_last": 100}},
+                         "_distinct_nontrivial": 1000, "cmp.matrix_independence": 1500, "cmp.matrix_moved_from_reuse": 500, "op.matrix_remove_last": 100,
+                         # audit gaps (about half of what seeds 1-3 measure in the ASan units alone)
+                         "scenario.self_swap": 300, "scenario.text_io": 300, "scenario.cross_copy": 700, "cmp.cross_operator_eq": 350,
+                         "state.source_has_infinite_value": 150, "cmp.text_io_with_infinite_value": 12, "cmp.keys": 40000, "cmp.simplex_data": 3500,
+                         "cmp.many_vertices": 6, "steps.divergent_flag": 3000, "op.insert_edge_as_flag": 5000, "op.expansion": 150,
+                         "matrix.src_ctor.reserve": 1400, "matrix.src_ctor.batch": 1400, "matrix.dst_other_characteristic": 350,
+                         "matrix.scenario.self_move_assign": 500, "matrix.scenario.self_swap": 500, "cmp.matrix_rows": 2500,
+                         "state.matrix_source_has_empty_row": 20, "op.matrix_source_column_op": 1500, "op.matrix_divergent_column_op": 900,
+                         "state.matrix_source_after_remove_last": 400}},
     "manifest": {
         "text": "Runtime monitor under ASan+UBSan: copies, assignments (incl. self), moves, swaps, binary and text serialisation of Simplex_trees in reachable "
                 "states (after removals/prunings, stale dimension caches, emptied trees) must yield objects observationally equal to the model through every "
                 "read interface, and independent: both objects are then driven through different histories with the other one fully re-checked after every "
                 "step and after the destruction of its sibling; every wrong buffer length must be refused by an exception with no out-of-bounds read "
-                "(exact-size heap buffers under ASan). Memory-safety/UB monitoring of every other check of the suite is provided by building all harnesses "
+                "(exact-size heap buffers under ASan). Source states include infinite filtration values, attached keys / Simplex_data, flag complexes grown by insert_edge_as_flag / expansion, "
+                "more vertices than the largest 16 bit vertex handle; the cross-option copy constructor is exercised on six pairs of option sets. Persistence matrices (18 instantiations) built by "
+                "each documented constructor, after column operations / remove_last, copied / assigned (also over another characteristic) / moved / swapped (incl. onto themselves) must dump equal "
+                "(columns, barcode, every existing row) and stay independent. Memory-safety/UB monitoring of every other check of the suite is provided by building all harnesses "
                 "with ASan+UBSan (and TSan for the thread workloads).",
         "note": "ASan is a red-zone tool (misses intra-object and pool-recycled accesses); MSan unusable here (uninstrumented libstdc++/boost); trusted: oracle::ComplexModel",
         "technique": "runtime monitoring: AddressSanitizer/UBSan/TSan + reference-model oracle on source, copy and moved-from objects along divergent histories",
